@@ -1,0 +1,21 @@
+//go:build verif
+
+// Machine-checked contracts for this package (comment-only; compiled only with -tags verif,
+// and even then contributes no code).  Read by /verif/govc; see /verif/DESIGN.md.
+
+package types
+
+//@ -- textual identity of a policy: every field delimited
+//@ spec func polText(name string, ns string, kind string) string = "{Name: " + name + ", Namespace: " + ns + ", Kind: " + kind + "}"
+//@ spec func polString(p PolicyID) string = polText(p.Name, p.Namespace, p.Kind)
+//@ func (PolicyID).String
+//@   property C37
+//@   ensures res == polString(p)
+//@   assigns nothing
+
+//@ -- the textual identity determines the policy (for field values without a comma, which Kubernetes name
+//@ -- validation guarantees): distinct policies contribute distinct lines to a policy group's hashed text
+//@ lemma polText_injective: forall n1 string, s1 string, k1 string, n2 string, s2 string, k2 string ::
+//@      !strContains(n1, ",") && !strContains(n2, ",") && !strContains(s1, ",") && !strContains(s2, ",")
+//@      && polText(n1, s1, k1) == polText(n2, s2, k2) ==> n1 == n2 && s1 == s2 && k1 == k2
+//@   property C37
